@@ -185,7 +185,10 @@ class VSeq:
         self.arr, self.n, self.wrap, self.tag = arr, n, wrap, tag
 
     def get(self, k):
-        return self.wrap(self.arr[k])
+        v = self.wrap(self.arr[k])
+        if isinstance(v, VArr):
+            v.shared = True          # the array object lives in the list: in-place operators on it are visible through the list
+        return v
 
     def copy(self):
         return VSeq(self.arr, self.n, self.wrap, self.tag)
@@ -970,6 +973,11 @@ class Exec:
     def st_AugAssign(self, s, st):
         cur = self.ev(s.target, st)
         rhs = self.ev(s.value, st)
+        if isinstance(s.target, ast.Name) and isinstance(cur, VArr) and getattr(cur, 'shared', False):
+            # `x = container[k]; x += ...` writes through to the element of the container (NumPy in-place operator on an
+            # alias); ttvc treats arrays as immutable values, so this is outside the subset
+            raise Unsupported(f'in-place operator on an array that also lives in a container / attribute (line {s.lineno}): '
+                              f'aliasing is not modelled by ttvc')
         if isinstance(cur, VOpaque) or isinstance(rhs, VOpaque):
             v = VOpaque('aug')
         else:
